@@ -57,6 +57,9 @@ type FuncVC struct {
 	maxPaths  int
 	aborted   string
 	entryVars map[string]any
+	compose   string
+	composeArgs map[string]V
+	deferredReq []*Clause
 }
 
 func (vc *FuncVC) fresh(prefix, sort string) string {
@@ -218,6 +221,12 @@ func describeValue(v ssa.Value) string {
 		}
 		if ia, ok := x.X.(*ssa.IndexAddr); ok {
 			return "elem " + strings.TrimPrefix(describeValue(ia.X), "var ")
+		}
+		switch y := x.X.(type) {
+		case *ssa.FreeVar:
+			return "var " + y.Name()
+		case *ssa.Parameter:
+			return "var " + y.Name()
 		}
 		return "load"
 	case *ssa.Parameter:
